@@ -1,0 +1,58 @@
+//go:build verif
+
+package pruner
+
+// Contracts for the deductive verifier in /verif (govc). Comments only; build tag "verif".
+//
+// C14. Time is abstracted by tns(t): the instant of a time.Time in nanoseconds (A-TIME: the methods of
+// time.Time below are their arithmetic meaning; saturation of Sub at +-292 years is ignored).
+
+//@ pure func tns(t time.Time) int
+//@ extern (time.Time).UTC
+//@   ensures tns(result) == tns(t)
+//@ extern (time.Time).Add
+//@   ensures tns(result) == tns(t) + d
+//@ extern (time.Time).After
+//@   ensures result <==> tns(t) > tns(u)
+//@ extern (time.Time).Before
+//@   ensures result <==> tns(t) < tns(u)
+//@ extern (time.Time).Sub
+//@   ensures result == tns(t) - tns(u)
+
+// Window safety: every header the finder hands to the pruner is at least one full window older
+// than the current head (cutoff = head time - window); headers inside the window are never returned,
+// whatever the block-time estimate, the batch limit or the starting point.
+//@ func (*Service).findPruneableHeaders
+//@   property C14
+//@   noframe
+//@   requires s.blockTime > 0 && s.hstore != nil && lastPruned != nil
+//@   checks err == nil && len(result0) > 0 ==> tns(pruneCutoff) == tns(head.Time()) - s.window
+//@   checks err == nil ==> forall i int :: 0 <= i && i < len(result0) ==> tns(result0[i].Time()) <= tns(pruneCutoff)
+//@   loop 2: invariant -1 <= rangeindex && rangeindex < len(headers)
+//@   loop 2: invariant forall j int :: 0 <= j && j <= rangeindex ==> tns(headers[j].Time()) <= tns(pruneCutoff)
+
+// The estimate never divides by zero and stays between the last pruned height and the batch limit.
+//@ func (*Service).calculateEstimatedCutoff
+//@   property C14
+//@   nopanic
+//@   requires s.blockTime > 0 && s.hstore != nil && lastPruned != nil
+
+// The last-pruned checkpoint never moves backwards.
+//@ func (*Service).lastPruned
+//@   property C14
+//@   requires s.checkpoint != nil
+//@   modifies s.checkpoint
+//@   modifies s.checkpoint.FailedHeaders
+//@   ensures s.checkpoint.LastPrunedHeight >= old(s.checkpoint.LastPrunedHeight)
+
+//@ func (*Service).updateCheckpoint
+//@   property C14
+//@   requires s.checkpoint != nil
+//@   modifies s.checkpoint
+//@   modifies s.checkpoint.FailedHeaders
+//@   ensures s.checkpoint.LastPrunedHeight == lastPrunedHeight
+//@   ensures forall h uint64 :: has(failedHeights, h) ==> has(s.checkpoint.FailedHeaders, h)
+//@   ensures forall h uint64 :: old(has(s.checkpoint.FailedHeaders, h)) ==> has(s.checkpoint.FailedHeaders, h)
+//@   loop 1: invariant s.checkpoint == old(s.checkpoint) && s.checkpoint.FailedHeaders == old(s.checkpoint.FailedHeaders)
+//@   loop 1: invariant forall h uint64 :: seen(1, h) ==> has(s.checkpoint.FailedHeaders, h)
+//@   loop 1: invariant forall h uint64 :: old(has(s.checkpoint.FailedHeaders, h)) ==> has(s.checkpoint.FailedHeaders, h)
